@@ -26,6 +26,8 @@ structure Rec where
   hookResp : Option J
   hookRaw : String
   hookRetryAfter : Int := 0
+  /-- apply only: what the field manager had applied to the target before -/
+  lastApplied : J := .null
   deriving Inhabited
 
 def Rec.ofJ (j : J) : Rec :=
@@ -34,7 +36,7 @@ def Rec.ofJ (j : J) : Rec :=
     code := j.getInt "code", reason := j.getStr "reason", resp := j.getD "resp",
     pre := j.opt "pre", post := j.opt "post", injected := j.getBool "injected",
     hook := j.getStr "hook", hookReq := j.getD "hookReq", hookResp := j.get? "hookResp", hookRaw := j.getStr "hookRaw",
-    hookRetryAfter := j.getInt "hookRetryAfter" }
+    hookRetryAfter := j.getInt "hookRetryAfter", lastApplied := j.getD "lastApplied" }
 
 def Rec.isHook (r : Rec) : Bool := r.verb == "hook"
 
